@@ -1085,6 +1085,16 @@ func c20Report(c *lib.Ctx, p *c20Problem, sweep bool) {
 	c.Report(p.sig, sweep, p.replay)
 }
 
+var c20Rng *lib.Rng
+
+// c20Mix: the splitmix64 finaliser
+func c20Mix(x uint64) uint64 {
+	x += 0x9E3779B97F4A7C15
+	x = (x ^ (x >> 30)) * 0xBF58476D1CE4E5B9
+	x = (x ^ (x >> 27)) * 0x94D049BB133111EB
+	return x ^ (x >> 31)
+}
+
 func runC20(c *lib.Ctx) {
 	if c.Replay != "" {
 		c20Replay(c)
@@ -1093,6 +1103,10 @@ func runC20(c *lib.Ctx) {
 	st := &c20Stats{}
 	d := c20NewDir(c, "hist")
 	defer os.RemoveAll(d.dir)
+	// lib.NewRng(seed+1) is lib.NewRng(seed) shifted by one draw, so adjacent seeds would explore
+	// nearly the same sessions: the generators of this slice draw from a stream whose start is a
+	// well-mixed function of VERIF_SEED instead of c.Rng
+	c20Rng = lib.NewRng(c20Mix(c.Seed))
 
 	// which form classes outside the guard may composite cases use (none that a known finding lists)
 	var free []c20Class
@@ -1105,7 +1119,7 @@ func runC20(c *lib.Ctx) {
 	nSweep := len(cases)
 	nRandom := c.Scale(260, 1600)
 	for i := 0; i < nRandom; i++ {
-		cases = append(cases, c20Composite(c, c.Rng, free))
+		cases = append(cases, c20Composite(c, c20Rng, free))
 	}
 	reqs := make([]string, len(cases))
 	for i, cs := range cases {
